@@ -148,6 +148,18 @@ Theorem C09_sts_reaches_tls :
 Proof. exact sts_reaches_tls. Qed.
 Print Assumptions C09_sts_reaches_tls.
 
+(* non-vacuity of C09_sts_reaches_tls where the configured port already IS the policy port: the policy is applied all the
+   same (force_tls_verification, TLS started, verify = true), with networks.<net>.ssl off and on *)
+Theorem C09_sts_reaches_tls_same_port :
+  let h := [104] in
+  let pol := s_port ++ [61;54;54;57;55;44] ++ s_duration ++ [61;49;48;48;48] in
+  snd (connectS [Server h 6697 (-1) false] 50 (Net [(h, pol)] [(h, 20%Z)]) (Mixin [] None) 3 false false false false)
+  = Ok (Conn (Server h 6697 4 true) true true) /\
+  snd (connectS [Server h 6697 (-1) false] 50 (Net [(h, pol)] [(h, 20%Z)]) (Mixin [] None) 3 true false false false)
+  = Ok (Conn (Server h 6697 4 true) true true).
+Proof. exact sts_reaches_tls_same_port. Qed.
+Print Assumptions C09_sts_reaches_tls_same_port.
+
 (* forced verification means verification *)
 Theorem C09_force_implies_verify :
   forall conf_verify fp ca, verify_choice true conf_verify fp ca = true \/ fp = true \/ ca = true.
